@@ -17,11 +17,11 @@ fn names(ms: &[Move]) -> Vec<String> {
     ms.iter().map(mv_name).collect()
 }
 
-/// the argument vector of a `position` command, exactly as the UCI loop splits it
 thread_local! {
     /// half-move clock and full-move number written into the FENs of `position_command` (default 0 1)
     pub static FEN_COUNTERS: std::cell::Cell<(u32, u32)> = std::cell::Cell::new((0, 1));
 }
+/// the argument vector of a `position` command, exactly as the UCI loop splits it
 pub fn position_command(start: &Pos, moves: &[String], use_startpos: bool) -> Vec<String> {
     let mut v = vec!["position".to_string()];
     if use_startpos {
